@@ -187,7 +187,7 @@ class MsgBlockList(List["Block"]):
 
 class Message:
     __slots__ = ("name", "send_flags", "packet_id", "acks", "body_boundaries", "queued",
-                 "offset", "raw_extra", "raw_body", "deserializer", "_blocks", "finalized",
+                 "offset", "raw_extra", "raw_body", "raw_trailing", "deserializer", "_blocks", "finalized",
                  "direction", "meta", "synthetic", "dropped", "sender")
 
     def __init__(self, name, *args, packet_id=None, flags=0, acks=None, direction=None):
@@ -206,6 +206,8 @@ class Message:
         # For lazy deserialization
         self.raw_body = None
         self.deserializer = None
+        # Bytes past the end of the blocks the template knows about, if any
+        self.raw_trailing = b""
         # should be set once a packet is sent / dropped to prevent accidental
         # re-sending or re-dropping
         self.finalized = False
